@@ -84,13 +84,15 @@ pub struct Fail {
     pub reason: String,
     /// root-cause signature key, matched against open known findings
     pub signature: Option<String>,
+    /// statistical failures: (index of the failing comparison, first estimate, confirmation estimate, target)
+    pub stat: Option<(usize, f64, f64, f64)>,
 }
 impl Fail {
     pub fn new(reason: impl Into<String>) -> Self {
-        Fail { reason: reason.into(), signature: None }
+        Fail { reason: reason.into(), signature: None, stat: None }
     }
     pub fn with_sig(reason: impl Into<String>, sig: &str) -> Self {
-        Fail { reason: reason.into(), signature: Some(sig.to_string()) }
+        Fail { reason: reason.into(), signature: Some(sig.to_string()), stat: None }
     }
 }
 pub type Eval = Result<Report, Fail>;
